@@ -123,4 +123,98 @@ theorem Fields.walkVals_nil_of_nodes_nil (t : ChildTable) : ∀ (fs : Fields) (a
         | cons p ps => exact Val.walkVals_nil_of_nodes_nil t _ v h.1
 end
 
+
+-- soundness for node values: whatever the table, only nodes of the tree are visited
+mutual
+theorem Val.walkVals_sublist (t : ChildTable) : ∀ (a : Option (List String)) (v : Val), (v.walkVals t a).Sublist v.nodeVals
+  | _, .node ty fs => by
+      simp only [Val.walkVals, Val.nodeVals]; exact List.Sublist.cons_cons _ (Fields.walkVals_sublist t fs _)
+  | a, .struct fs => by simp only [Val.walkVals, Val.nodeVals]; exact Fields.walkVals_sublist t fs _
+  | a, .list xs => by simp only [Val.walkVals, Val.nodeVals]; exact Vals.walkVals_sublist t a xs
+  | _, .str _ => by simp [Val.walkVals, Val.nodeVals]
+  | _, .int _ => by simp [Val.walkVals, Val.nodeVals]
+  | _, .bool _ => by simp [Val.walkVals, Val.nodeVals]
+  | _, .nil => by simp [Val.walkVals, Val.nodeVals]
+theorem Vals.walkVals_sublist (t : ChildTable) : ∀ (a : Option (List String)) (vs : Vals), (vs.walkVals t a).Sublist vs.nodeVals
+  | _, .nil => by simp [Vals.walkVals, Vals.nodeVals]
+  | a, .cons v vs => by
+      simp only [Vals.walkVals, Vals.nodeVals]
+      exact List.Sublist.append (Val.walkVals_sublist t a v) (Vals.walkVals_sublist t a vs)
+theorem Fields.walkVals_sublist (t : ChildTable) :
+    ∀ (fs : Fields) (a : Option (List String)), (fs.walkVals t a).Sublist fs.nodeVals
+  | .nil, _ => by simp [Fields.walkVals, Fields.nodeVals]
+  | .cons n v fs, a => by
+      simp only [Fields.walkVals, Fields.nodeVals]
+      apply List.Sublist.append _ (Fields.walkVals_sublist t fs a)
+      cases hb : allowBelow a n with
+      | none => exact Val.walkVals_sublist t none v
+      | some l =>
+        cases l with
+        | nil => exact List.nil_sublist _
+        | cons p ps => exact Val.walkVals_sublist t _ v
+end
+
+-- descendants of a descendant are descendants
+mutual
+theorem Val.nodeVals_trans : ∀ (v n m : Val), n ∈ v.nodeVals → m ∈ n.nodeVals → m ∈ v.nodeVals
+  | .node ty fs, n, m, hn, hm => by
+      simp only [Val.nodeVals, List.mem_cons] at hn ⊢
+      cases hn with
+      | inl h => subst h; simpa [Val.nodeVals] using hm
+      | inr h => exact Or.inr (Fields.nodeVals_trans fs n m h hm)
+  | .struct fs, n, m, hn, hm => by
+      simp only [Val.nodeVals] at hn ⊢; exact Fields.nodeVals_trans fs n m hn hm
+  | .list xs, n, m, hn, hm => by
+      simp only [Val.nodeVals] at hn ⊢; exact Vals.nodeVals_trans xs n m hn hm
+  | .str _, _, _, hn, _ => by simp [Val.nodeVals] at hn
+  | .int _, _, _, hn, _ => by simp [Val.nodeVals] at hn
+  | .bool _, _, _, hn, _ => by simp [Val.nodeVals] at hn
+  | .nil, _, _, hn, _ => by simp [Val.nodeVals] at hn
+theorem Vals.nodeVals_trans : ∀ (vs : Vals) (n m : Val), n ∈ vs.nodeVals → m ∈ n.nodeVals → m ∈ vs.nodeVals
+  | .nil, _, _, hn, _ => by simp [Vals.nodeVals] at hn
+  | .cons v vs, n, m, hn, hm => by
+      simp only [Vals.nodeVals, List.mem_append] at hn ⊢
+      cases hn with
+      | inl h => exact Or.inl (Val.nodeVals_trans v n m h hm)
+      | inr h => exact Or.inr (Vals.nodeVals_trans vs n m h hm)
+theorem Fields.nodeVals_trans : ∀ (fs : Fields) (n m : Val), n ∈ fs.nodeVals → m ∈ n.nodeVals → m ∈ fs.nodeVals
+  | .nil, _, _, hn, _ => by simp [Fields.nodeVals] at hn
+  | .cons _ v fs, n, m, hn, hm => by
+      simp only [Fields.nodeVals, List.mem_append] at hn ⊢
+      cases hn with
+      | inl h => exact Or.inl (Val.nodeVals_trans v n m h hm)
+      | inr h => exact Or.inr (Fields.nodeVals_trans fs n m h hm)
+end
+
+
+-- nodeVals lists Node values only
+mutual
+theorem Val.nodeVals_isNode : ∀ (v m : Val), m ∈ v.nodeVals → ∃ ty fs, m = .node ty fs
+  | .node ty fs, m, h => by
+      simp only [Val.nodeVals, List.mem_cons] at h
+      cases h with
+      | inl e => exact ⟨ty, fs, e⟩
+      | inr e => exact Fields.nodeVals_isNode fs m e
+  | .struct fs, m, h => by simp only [Val.nodeVals] at h; exact Fields.nodeVals_isNode fs m h
+  | .list xs, m, h => by simp only [Val.nodeVals] at h; exact Vals.nodeVals_isNode xs m h
+  | .str _, _, h => by simp [Val.nodeVals] at h
+  | .int _, _, h => by simp [Val.nodeVals] at h
+  | .bool _, _, h => by simp [Val.nodeVals] at h
+  | .nil, _, h => by simp [Val.nodeVals] at h
+theorem Vals.nodeVals_isNode : ∀ (vs : Vals) (m : Val), m ∈ vs.nodeVals → ∃ ty fs, m = .node ty fs
+  | .nil, _, h => by simp [Vals.nodeVals] at h
+  | .cons v vs, m, h => by
+      simp only [Vals.nodeVals, List.mem_append] at h
+      cases h with
+      | inl e => exact Val.nodeVals_isNode v m e
+      | inr e => exact Vals.nodeVals_isNode vs m e
+theorem Fields.nodeVals_isNode : ∀ (fs : Fields) (m : Val), m ∈ fs.nodeVals → ∃ ty fs', m = .node ty fs'
+  | .nil, _, h => by simp [Fields.nodeVals] at h
+  | .cons _ v fs, m, h => by
+      simp only [Fields.nodeVals, List.mem_append] at h
+      cases h with
+      | inl e => exact Val.nodeVals_isNode v m e
+      | inr e => exact Fields.nodeVals_isNode fs m e
+end
+
 end GoSQLXModel
